@@ -3,7 +3,8 @@
    action_obj.py, ApplyUndoActions.  Statements only; proofs in Proofs/ActionLog_proofs.v. *)
 From Coq Require Import ZArith List Bool.
 Import ListNotations.
-Require Import Grist.Model.ActionLog Grist.Model.ActionLogEnc Grist.Proofs.ActionLog_proofs Grist.Proofs.ActionLog_calc.
+Require Import Grist.Model.ActionLog Grist.Model.ActionLogEnc Grist.Proofs.ActionLog_proofs Grist.Proofs.ActionLog_calc
+  Grist.Proofs.ActionLogEnc_laws.
 Open Scope Z_scope.
 
 (* The statement at full strength, for a class `wf_events` of event lists: replaying the undo list of a
@@ -39,6 +40,14 @@ Definition docs_then_calcs (O : ValOps) (s : state O) (es : list (event O)) : Pr
 Theorem C01_undo_restores_docs_calcs_partial : forall O, ValLaws O -> C01_statement O (docs_then_calcs O).
 Proof. intros O L s es s' out _ Hok H. exact (bundle_ok2_undo O L s es s' out Hok H). Qed.
 
+(* The value laws hold for the encoded values the event-trace tie uses (equal_encoding, strict_equal, Column.set per
+   column class as modelled in Model/ActionLogEnc.v), for every type table whose defaults are fixed points of their
+   column class (tt_ok, computed on the table the harness reads from the running usertypes/column modules).  So the
+   theorem applies to the very model instance that is compared with the engine on every run. *)
+Theorem C01_undo_restores_encoded_values_partial : forall tt, tt_ok tt = true ->
+  C01_statement (EOps tt) (docs_then_calcs (EOps tt)).
+Proof. intros tt H. apply C01_undo_restores_docs_calcs_partial. apply EOps_laws. exact H. Qed.
+
 (* Each doc action is undone by the undo actions it appended, except for the cells in `lossy` (restored by
    the engine through the calc summary, by recalculation, or by the conversion delta of doModifyColumn). *)
 Theorem C01_each_action_inverse : forall O, ValLaws O -> forall a s s' u ops,
@@ -58,6 +67,12 @@ Theorem C01_history : forall O, ValLaws O -> forall bs s s' us,
   bundles_ok O s bs -> run_history O s bs = Ok (s', us) ->
   exists s'', undo_history O us s' = Ok s'' /\ seq O s'' s.
 Proof. intros O L. exact (history_undo O L). Qed.
+
+(* ... in particular histories whose bundles all have the proved shape (computable check along the history). *)
+Theorem C01_history_docs_calcs_partial : forall O, ValLaws O -> forall bs s s' us,
+  bundles_ok2 O s bs = true -> run_history O s bs = Ok (s', us) ->
+  exists s'', undo_history O us s' = Ok s'' /\ seq O s'' s.
+Proof. intros O L. exact (history_ok2_undo O L). Qed.
 
 (* Documents stay well formed, so the hypotheses of the theorems hold again for the next bundle. *)
 Theorem C01_wf_preserved : forall O, ValLaws O -> forall a s s' o,
